@@ -236,7 +236,9 @@ TraceMatch ==
                    THEN <<MM("matcher.unnamed", "", "", st, p, hdr, "")>> ELSE <<>>
          \* learned text must be stable: the same value identity always stores the same lines
          \* C14: what was just stored parses to the same JSON value as the input
-         lossMM == IF E.lossless = "no" THEN <<MM("json.lossy", "", "", st, p, hdr, "")>> ELSE <<>>
+         lossMM == (IF E.lossless = "no" THEN <<MM("json.lossy", "", "", st, p, hdr, "")>> ELSE <<>>)
+                   \* C15: the bytes the caller passed in are never modified
+                   \o (IF ~E.bufsame THEN <<MM("buf.modified", "", "", st, p, hdr, "")>> ELSE <<>>)
          detMM == IF ~c.val.known /\ c.val.vid \in DOMAIN fmtOf /\ Writes(eff) /\ E.hasfs
                      /\ seen # fmtOf[c.val.vid]
                   THEN <<MM("format.unstable", "", "", st, p, hdr, c.val.vid)>> ELSE <<>>
